@@ -12,6 +12,11 @@
 (*                    iteration order of the two maps                             *)
 (*   MatchNumerical : the value list, sorted IN PLACE by Analyze; order statistics *)
 (*                    by index                                                     *)
+(*   AccumulatingGroup: the data map plus the ONE evaluation context shared by all *)
+(*                    Sample calls (match, current value, key lookup bound to the  *)
+(*                    row written last) - re-initialised at the top of Sample,     *)
+(*                    re-bound after the group is known, `current` moved from      *)
+(*                    column to column                                              *)
 (* Accessor calls are explicit steps (Observe): they leave the abstract state      *)
 (* alone but may touch the implementation state - Analyze re-orders the value      *)
 (* list, and with Memo # "none" ComputeMinMax stores its result.  Sim must hold     *)
@@ -23,15 +28,25 @@ CONSTANTS Which,      \* "ctr" | "sub" | "tbl" | "num" | "acc" : the aggregator 
           MaxLen,     \* bound on the number of steps
           TrimFixed,  \* TRUE: Trim keeps a column only if a PRESENT cell was kept (code after the fix)
                       \* FALSE: the original code (kept it when the predicate was false on an absent cell)
+          AccCtx,     \* how AccumulatingGroup.Sample treats its shared evaluation context:
+                      \* "reset"     : match set, current and key lookup cleared at the top (the code as written)
+                      \* "fresh"     : a new context per call (behaviour-preserving refactoring) - Sim must hold
+                      \* "stalelook" : key lookup not cleared - the group expressions of sample n read the row that
+                      \*               sample n-1 wrote to: Sim must FAIL where a group names a column (negative control)
+                      \* "stalecur"  : current not cleared - `{.}` in a group expression reads what the last column
+                      \*               of sample n-1 held: Sim must FAIL (negative control)
+                      \* "memokey"   : GetKey remembers, for the rest of the sample, what it answered for a key and
+                      \*               does not notice the column being rewritten: Sim must FAIL where a column is
+                      \*               read before and after its update (negative control)
           Memo        \* "none" : ComputeMinMax recomputes on every call (the code as written)
                       \* "ok"   : a memoising variant that drops the stored value in SampleItem AND Trim -
                       \*          a behaviour-preserving refactoring, Sim must still hold
                       \* "stale": dropped in SampleItem only - Sim must FAIL (negative control:
                       \*          sample, observe, trim, observe)
 
-VARIABLES cm, sk, tb, nm, len
-ivars == <<cm, sk, tb, nm, len>>
-vars  == <<ctr, sub, tbl, num, acc, cm, sk, tb, nm, len>>
+VARIABLES cm, sk, tb, nm, ag, len
+ivars == <<cm, sk, tb, nm, ag, len>>
+vars  == <<ctr, sub, tbl, num, acc, cm, sk, tb, nm, ag, len>>
 
 \* ------------------------------------------------------------------ alphabets
 bA == <<97>>   bB == <<98>>   bX == <<120>>   bY == <<121>>   bE == <<>>
@@ -192,28 +207,76 @@ NmMode(s, rev) ==
       best == MaxOf({cnt(o[i]) : i \in 1..Len(o)})
   IN o[MinOf({i \in 1..Len(o) : cnt(o[i]) = best})]
 
+\* -------------------------------------------------------- AccumulatingGroup
+\* data : group key -> row ; ctx : the exprAccumulatorContext object that lives as long as the aggregator.
+\* look = the keyLookup closure: unset (nil), or bound to the row of group g (rows are never replaced
+\* or deleted, so the captured slice IS data[g], including later writes to it)
+NoLook == [set |-> FALSE, g |-> <<>>]
+\* memo : column index -> value, what a memoising GetKey has answered so far in this sample ("memokey" only)
+AgCtx0 == [match |-> <<>>, current |-> <<>>, look |-> NoLook, memo |-> EmptyFn]
+AgInit == [data |-> EmptyFn, ctx |-> AgCtx0]
+AgNames == [i \in 1..Len(AccCfg.cols) |-> AccCfg.cols[i].name]
+\* what GetMatch / GetKey answer in context c over the data d (a remembered answer wins over the live row)
+AgEvalCtx(d, c) ==
+  LET row0 == IF c.look.set THEN d[c.look.g] ELSE <<>>
+  IN [match |-> c.match, cur |-> c.current, names |-> IF c.look.set THEN AgNames ELSE <<>>,
+      row |-> [i \in 1..Len(row0) |-> IF i \in DOMAIN c.memo THEN c.memo[i] ELSE row0[i]]]
+\* buildGroupKey
+AgGroupKey(d, c) ==
+  JoinSeq([j \in 1..Len(AccCfg.groups) |-> Eval(AccCfg.groups[j].e, AgEvalCtx(d, c))], <<NUL>>)
+\* the keys an expression looks up
+RECURSIVE KeysOf(_)
+KeysOf(e) ==
+  IF e.t = "k" THEN (IF e.s = DOT THEN {} ELSE {e.s})
+  ELSE IF e.t \in {"lit", "m"} THEN {}
+  ELSE UNION {KeysOf(e.a[j]) : j \in 1..Len(e.a)}
+RECURSIVE AgCols(_, _, _, _)
+\* the column loop: current := row[j] ; row[j] := expr(ctx), in place
+AgCols(d, c, g, j) ==
+  IF j > Len(AccCfg.cols) THEN [data |-> d, ctx |-> c]
+  ELSE LET c1 == [c EXCEPT !.current = d[g][j]]
+           x  == AgEvalCtx(d, c1)
+           c2 == IF AccCtx # "memokey" THEN c1
+                 ELSE [c1 EXCEPT !.memo = [i \in DOMAIN c1.memo \cup {i \in 1..Len(AgNames) : AgNames[i] \in KeysOf(AccCfg.cols[j].e)}
+                                            |-> x.row[i]]]
+       IN AgCols([d EXCEPT ![g][j] = Eval(AccCfg.cols[j].e, x)], c2, g, j + 1)
+\* "init shared context": what the top of Sample makes of the context the previous call left behind
+AgTop(c, el) ==
+  [match |-> el,
+   current |-> IF AccCtx = "stalecur" THEN c.current ELSE <<>>,
+   look |-> IF AccCtx = "stalelook" THEN c.look ELSE NoLook,
+   memo |-> EmptyFn]
+AgSample(s, el) ==
+  LET c0 == AgTop(s.ctx, el)
+      g  == AgGroupKey(s.data, c0)
+      d1 == IF g \in DOMAIN s.data THEN s.data
+            ELSE Upd(s.data, g, [j \in 1..Len(AccCfg.cols) |-> AccCfg.cols[j].init])
+      \* "now that row are defined, allow retrieving them"
+      r  == AgCols(d1, [c0 EXCEPT !.look = [set |-> TRUE, g |-> g]], g, 1)
+  IN [data |-> r.data, ctx |-> IF AccCtx = "fresh" THEN AgCtx0 ELSE r.ctx]
+
 \* ------------------------------------------------------------------ machine
 Init ==
   /\ AInit /\ len = 0
-  /\ cm = CmInit /\ sk = SkInit /\ tb = TbInit /\ nm = NmInit
+  /\ cm = CmInit /\ sk = SkInit /\ tb = TbInit /\ nm = NmInit /\ ag = AgInit
 
 Sample(el) ==
-  CASE Which = "ctr" -> ASampleCtr(el) /\ cm' = CmSample(cm, el) /\ UNCHANGED <<sk, tb, nm>>
-    [] Which = "sub" -> ASampleSub(el) /\ sk' = SkSample(sk, el) /\ UNCHANGED <<cm, tb, nm>>
-    [] Which = "tbl" -> ASampleTbl(el) /\ tb' = TbSample(tb, el) /\ UNCHANGED <<cm, sk, nm>>
-    [] Which = "num" -> ASampleNumB(el, MCBase) /\ nm' = NmSample(nm, el) /\ UNCHANGED <<cm, sk, tb>>
-    [] Which = "acc" -> ASampleAcc(el) /\ UNCHANGED <<cm, sk, tb, nm>>
+  CASE Which = "ctr" -> ASampleCtr(el) /\ cm' = CmSample(cm, el) /\ UNCHANGED <<sk, tb, nm, ag>>
+    [] Which = "sub" -> ASampleSub(el) /\ sk' = SkSample(sk, el) /\ UNCHANGED <<cm, tb, nm, ag>>
+    [] Which = "tbl" -> ASampleTbl(el) /\ tb' = TbSample(tb, el) /\ UNCHANGED <<cm, sk, nm, ag>>
+    [] Which = "num" -> ASampleNumB(el, MCBase) /\ nm' = NmSample(nm, el) /\ UNCHANGED <<cm, sk, tb, ag>>
+    [] Which = "acc" -> ASampleAcc(el) /\ ag' = AgSample(ag, el) /\ UNCHANGED <<cm, sk, tb, nm>>
 \* the two map iterations of Trim may run in any order
 Trim(p) ==
   /\ Which = "tbl" /\ ATrimTbl(p)
   /\ \E co \in SetToSeqs(DOMAIN tb.cols), ro \in SetToSeqs(DOMAIN tb.rows) : tb' = TbTrim(tb, p, co, ro)
-  /\ UNCHANGED <<cm, sk, nm>>
+  /\ UNCHANGED <<cm, sk, nm, ag>>
 \* reading every public accessor: a stuttering step of the abstract machine
 Observe ==
   /\ AObserve
   /\ tb' = (IF Which = "tbl" THEN TbObserve(tb) ELSE tb)
   /\ nm' = (IF Which = "num" THEN NmAnalyze(nm) ELSE nm)
-  /\ UNCHANGED <<cm, sk>>
+  /\ UNCHANGED <<cm, sk, ag>>
 Next ==
   /\ len < MaxLen /\ len' = len + 1
   /\ (\E el \in Elems : Sample(el)) \/ (\E p \in Preds : Trim(p)) \/ Observe
@@ -299,5 +362,16 @@ MomentsOK ==
 ShiftLawLe3 == len <= 3 => ShiftLaw
 NumLawsLe3 == len <= 3 => (OrderStats /\ MomentsOK /\ ShiftLaw /\ CommuteB)
 
-Sim == SimCtr /\ SkAligned /\ SimSub /\ SimTbl /\ TbRedundancy /\ SimNum
+\* accumulating group: the rows are the abstract fold's, and - whatever the shared context was left
+\* holding by the history so far - the NEXT sample's group is the abstract one: a function of the
+\* sample alone (no data column, current value or unknown key shows through)
+SimAcc == ag.data = acc
+AccKeyPure ==
+  Which = "acc" =>
+    \A el \in Elems : AgGroupKey(ag.data, AgTop(ag.ctx, el)) = AccGroupKey(AccCfg, el)
+\* the group of a sample does not depend on what was sampled before (abstract layer: by construction;
+\* stated on the fold: the key set of the state is the image of the samples)
+AccGroupsOK == Which = "acc" => \A g \in DOMAIN acc : \E el \in Elems : g = AccGroupKey(AccCfg, el)
+
+Sim == SimCtr /\ SkAligned /\ SimSub /\ SimTbl /\ TbRedundancy /\ SimNum /\ SimAcc
 =============================================================================
